@@ -864,10 +864,15 @@ load_and_validate_field (DBusHeader     *header,
       string_validation_func = _dbus_validate_interface;
       bad_string_code = DBUS_INVALID_BAD_INTERFACE;
 
+      /* exactly the reserved name, not merely a name that starts with it:
+       * the value is followed by its nul terminator */
       if (_dbus_string_equal_substring (&_dbus_local_interface_str,
                                         0,
                                         _dbus_string_get_length (&_dbus_local_interface_str),
-                                        value_str, str_data_pos))
+                                        value_str, str_data_pos) &&
+          _dbus_string_get_byte (value_str,
+                                 str_data_pos +
+                                 _dbus_string_get_length (&_dbus_local_interface_str)) == '\0')
         {
           _dbus_verbose ("Message is on the local interface\n");
           return DBUS_INVALID_USES_LOCAL_INTERFACE;
@@ -896,7 +901,10 @@ load_and_validate_field (DBusHeader     *header,
       if (_dbus_string_equal_substring (&_dbus_local_path_str,
                                         0,
                                         _dbus_string_get_length (&_dbus_local_path_str),
-                                        value_str, str_data_pos))
+                                        value_str, str_data_pos) &&
+          _dbus_string_get_byte (value_str,
+                                 str_data_pos +
+                                 _dbus_string_get_length (&_dbus_local_path_str)) == '\0')
         {
           _dbus_verbose ("Message is from the local path\n");
           return DBUS_INVALID_USES_LOCAL_PATH;
